@@ -10,7 +10,7 @@ from . import dsl
 from .core import PyExc, Unsupported, PathPruned
 from .expr import Frame, GenV
 from .ops import conc_bool, conc_int, as_int_term, as_num_term, is_num, mk
-from .values import (BoolV, IntV, RealV, StrV, NoneV, NONE, TupleV, ListV, SeqV, SetV, DictV, ObjV,
+from .values import (RefV, BoolV, IntV, RealV, StrV, NoneV, NONE, TupleV, ListV, SeqV, SetV, DictV, ObjV,
                      ClassV, FuncV, BoundV, BuiltinV, ModuleV, RangeV, SuperV, V, StrSort)
 
 TYPE_NAMES = {"int": (IntV, BoolV), "bool": (BoolV,), "float": (RealV,), "str": (StrV,),
@@ -23,7 +23,10 @@ class BuiltinMixin:
         ctx = self.ctx
         if name in ("noop", "print") or name.startswith(("logging.", "warnings.")):
             return NONE
-        handler = getattr(self, "b_" + name.replace(".", "_"), None)
+        ext = self.stubs.get(name) or self.stubs.get(name.replace("ext:", ""))
+        if isinstance(ext, dsl.External):
+            return self.call_external(ext, name, args, line)
+        handler = getattr(self, "b_" + name.replace(".", "_").replace(":", "_"), None)
         if handler is not None:
             return handler(args, kwargs, line)
         raise Unsupported(f"builtin {name} (line {line})")
@@ -171,6 +174,14 @@ class BuiltinMixin:
 
     def b_isinstance(self, args, kwargs, line):
         value, spec = args
+        if isinstance(value, RefV):
+            terms = []
+            for name in self.class_names(spec):
+                if name == value.desc.cls or name in value.desc.isa or name == "object":
+                    return BoolV(True)
+                if name in value.desc.maybe:
+                    terms.append(z3.Function(f"isinstance_{name}", value.t.sort(), z3.BoolSort())(value.t))
+            return BoolV(self.or_(terms))
         for name in self.class_names(spec):
             if name in TYPE_NAMES:
                 if isinstance(value, TYPE_NAMES[name]):
@@ -338,6 +349,9 @@ class BuiltinMixin:
         return DictV(entries=[], default_factory=args[0] if args else None)
 
     b_collections_defaultdict = b_defaultdict
+
+    def b_ext_OrderedDict(self, args, kwargs, line):
+        return self.b_dict(args, kwargs, line)
 
     def b_deepcopy(self, args, kwargs, line):
         raise Unsupported("deepcopy")
